@@ -28,19 +28,28 @@ def prefixCmp (a b : HRange) : Int :=
   let c := strcmpSign a.pre b.pre
   if c = 0 then (if b.single then 1 else 0) - (if a.single then 1 else 0) else c
 
+/-- the low bounds compared: DEFECT D26, `h1->lo - h2->lo` is an `unsigned long` difference returned
+    as `int`: low bounds 2^31 or more apart compare the wrong way round (or "equal"), the records
+    are sorted / accepted in the wrong order and `hostrange_join` (which assumes h1.lo ≤ h2.lo)
+    swallows the second record: `x[0-5],x[2147483653]` loses x0 … x5 in `hostlist_uniq`.
+    Repaired: `(h1->lo > h2->lo) - (h1->lo < h2->lo)`. -/
+def loCmp (cfg : Cfg) (a b : Nat) : Int :=
+  if cfg.fixCmpTrunc then (if a < b then -1 else if a = b then 0 else 1)
+  else toInt32 (subU64 a b)
+
 /-- `hostrange_cmp`: prefix, then (compatible widths) low bound, else width -/
-def hostrangeCmp (a b : HRange) : Int :=
+def hostrangeCmp (cfg : Cfg) (a b : HRange) : Int :=
   let c := prefixCmp a b
   if c = 0 then
-    (if (widthCombine a b).1 then toInt32 (subU64 a.lo b.lo) else (a.width : Int) - b.width)
+    (if (widthCombine a b).1 then loCmp cfg a.lo b.lo else (a.width : Int) - b.width)
   else c
 
 /-- stable insertion: `x` goes behind every element that does not compare greater -/
-def insertSorted (x : RObj) : List RObj → List RObj
+def insertSorted (cfg : Cfg) (x : RObj) : List RObj → List RObj
   | [] => [x]
-  | y :: ys => if hostrangeCmp y.r x.r ≤ 0 then y :: insertSorted x ys else x :: y :: ys
+  | y :: ys => if hostrangeCmp cfg y.r x.r ≤ 0 then y :: insertSorted cfg x ys else x :: y :: ys
 
-def sortRanges (rs : List RObj) : List RObj := rs.foldl (fun acc x => insertSorted x acc) []
+def sortRanges (cfg : Cfg) (rs : List RObj) : List RObj := rs.foldl (fun acc x => insertSorted cfg x acc) []
 
 /-- `hostrange_join(h1, h2)`: `none` = -1 (no join), otherwise the number of duplicated hosts;
     and both records afterwards (`hostrange_width_combine` may rewrite either width even when no
@@ -69,20 +78,20 @@ def uniqLoop (cfg : Cfg) : Nat → EL → Nat → Option EL
     match e.rs[i - 1]?, e.rs[i]? with
     | some a, some b =>
       if i = 0 then some e
-      else if hostrangeCmp a.r b.r > 0 then none
+      else if hostrangeCmp cfg a.r b.r > 0 then none
       else
         match hostrangeJoin a.r b.r with
         | (some ndup, a', b') =>
-          let e1 := deleteRange cfg ((e.setObj a.id a').setObj b.id b') i
+          let e1 := deleteRange cfg ((e.setAt (i - 1) a').setAt i b') i
           uniqLoop cfg fuel { e1 with nhosts := e1.nhosts - ndup } i
-        | (none, a', b') => uniqLoop cfg fuel ((e.setObj a.id a').setObj b.id b') (i + 1)
+        | (none, a', b') => uniqLoop cfg fuel ((e.setAt (i - 1) a').setAt i b') (i + 1)
     | _, _ => some e
 
 /-- `hostlist_uniq` -/
 def uniqE (cfg : Cfg) (e : EL) : Option EL :=
   if e.rs.length ≤ 1 then some e
   else
-    match uniqLoop cfg (2 * e.rs.length + 2) { e with rs := sortRanges e.rs } 1 with
+    match uniqLoop cfg (2 * e.rs.length + 2) { e with rs := sortRanges cfg e.rs } 1 with
     | none => none
     | some e1 => some { e1 with its := e1.its.map fun (k, _) => (k, e1.resetIt) }
 
